@@ -107,6 +107,9 @@ HEADERS = [
     ('Content-Length', '5'), ('CIMOperation', 'MethodResponse'),
     ('Transfer-Encoding', 'chunked'),
 ]
+AUTH_PARTS = ['Basic realm="x"', 'Basic', 'Negotiate', 'Digest realm="a, b"',
+              '', ' ', 'basic', 'Basic  realm="x"', ' Basic realm="x"',
+              'Kerberos', 'NTLM abc==', '\tBasic', 'Basic,']
 FAULTS = ['ConnectionError', 'ConnectTimeout', 'ReadTimeout', 'SSLError',
           'ProxyError', 'ChunkedEncodingError', 'ContentDecodingError',
           'TooManyRedirects', 'RetryError', 'InvalidHeader', 'InvalidURL',
@@ -167,9 +170,28 @@ def g_response(draw):
     status = draw(st.sampled_from(STATUS))
     if mode in ('xml', 'yaml') and draw(S._I10) < 8:
         status = (200, 'OK')
-    spec['status'] = status
     nh = draw(st.sampled_from([0, 0, 0, 1, 1, 2]))
-    spec['headers'] = [draw(st.sampled_from(HEADERS)) for _ in range(nh)]
+    headers = [draw(st.sampled_from(HEADERS)) for _ in range(nh)]
+    # HTTP-level scenarios in which status and headers belong together
+    scen = draw(S._I100)
+    if scen < 6:
+        status = (401, draw(st.sampled_from(['Unauthorized', '', 'x'])))
+        if draw(S._I10) < 8:
+            parts = [draw(st.sampled_from(AUTH_PARTS))
+                     for _ in range(1 + draw(S._I10) % 4)]
+            headers.append(('WWW-Authenticate',
+                            draw(st.sampled_from([',', ', ', ' ,'])).join(
+                                parts)))
+    elif scen < 12:
+        status = draw(st.sampled_from([s for s in STATUS if s[0] != 200]))
+        headers.append(('CIMError', draw(st.sampled_from(
+            ['request-not-valid', 'unsupported-protocol-version', '', ' ',
+             'x y', 'é']))))
+        if draw(S._B):
+            headers.append(('PGErrorDetail', draw(st.sampled_from(
+                ['a%20b', '%', '%zz', '%ff%fe', '', 'a b', '%E2%82']))))
+    spec['status'] = status
+    spec['headers'] = headers
     if mode in ('xml', 'bytes'):
         spec['pool'] = R.g_pool(draw)
         spec['mut'] = R.g_mutations(draw)
